@@ -6,7 +6,14 @@
      needsquote <hex>   -> true|false
      quote <hex>        -> ok <hex> | err
      unquote <hex>      -> ok <hex> | err
-     wf <comment> (<name> <data>)* -> true|false *)
+     wf <comment> (<name> <data>)* -> true|false
+   statement-level model (TxtarIndex.v):
+     parseidx <hex>     -> as parse, or PANIC | OUTOFFUEL
+     needsquoteidx <hex>-> true|false | PANIC | OUTOFFUEL
+     ismarkeridx <hex>  -> M <name> <after> | PANIC
+   the model's own property statements, in executable form (TxtarHolds.v):
+     holds <hex>        -> true|false   (c03_holds_on)
+     holds14 <hex>      -> true|false   (c14_holds_on) *)
 let show_archive (a : archive) =
   String.concat " " ("A" :: hex_of_bytes a.comment :: string_of_int (List.length a.files) ::
     List.concat_map (fun (n, d) -> [hex_of_bytes n; hex_of_bytes d]) a.files)
@@ -17,7 +24,16 @@ let archive_of = function
   | c :: r -> { comment = bytes_of_hex c; files = pairs r }
   | [] -> { comment = []; files = [] }
 let show_opt = function Some b -> "ok " ^ hex_of_bytes b | None -> "err"
+let show_res show = function Ok a -> show a | Panic -> "PANIC" | OutOfFuel -> "OUTOFFUEL"
+let show_mres = function
+  | MRes (n, a) -> "M " ^ hex_of_bytes n ^ " " ^ hex_of_bytes a
+  | MPanic -> "PANIC"
 let () = serve (function
+  | ["parseidx"; x] -> show_res show_archive (parse_idx (bytes_of_hex x))
+  | ["needsquoteidx"; x] -> show_res string_of_bool (needs_quote_idx (bytes_of_hex x))
+  | ["ismarkeridx"; x] -> show_mres (is_marker_idx (bytes_of_hex x))
+  | ["holds"; x] -> string_of_bool (c03_holds_on (bytes_of_hex x))
+  | ["holds14"; x] -> string_of_bool (c14_holds_on (bytes_of_hex x))
   | ["parse"; x] -> show_archive (parse (bytes_of_hex x))
   | ["refparse"; x] -> show_archive (ref_parse (bytes_of_hex x))
   | ["reparse"; x] -> show_archive (parse (format (parse (bytes_of_hex x))))
